@@ -133,6 +133,73 @@ func c09Exec(c c09Case, st *lab.Stats) *lab.Fail {
 			if f := openOne(); f != nil {
 				return f
 			}
+		case "silent":
+			// a connection that never sends a request (a health check, a port scan): it has an ID too - the one
+			// OnClose reports - and that ID belongs to it for the server's whole life
+			mu.Lock()
+			before := map[int]int{}
+			for k, v := range closedIDs {
+				before[k] = v
+			}
+			mu.Unlock()
+			cl, err := lab.Dial(srv.Addr)
+			if err != nil {
+				return lab.Failf("dial-failed", "%v", err)
+			}
+			if stp.How == "rst" {
+				rst(rawConn(cl.C))
+			} else {
+				if stp.How == "unbind" { // half a frame, then FIN
+					_ = cl.Send(simpleReq("search", 5).Bytes()[:7])
+				}
+				cl.Close()
+			}
+			tag := nextTag
+			nextTag++
+			sid := 0
+			deadline := time.After(10 * time.Second)
+			for sid == 0 {
+				mu.Lock()
+				for k, v := range closedIDs {
+					if v > before[k] {
+						sid = k
+					}
+				}
+				mu.Unlock()
+				if sid != 0 {
+					break
+				}
+				select {
+				case <-onclose:
+				case <-deadline:
+					return lab.Failf("onclose-missing-silent", "step %d: a connection that connected and closed without a request was never reported to OnClose", si)
+				}
+			}
+			if sid <= 0 {
+				return lab.Failf("connection-id-not-positive", "OnClose reported ConnectionID %d for a connection that never sent a request", sid)
+			}
+			if prev, ok := allIDs[sid]; ok {
+				return lab.Failf("connection-id-reused", "OnClose reported ConnectionID %d for a connection that never sent a request (tag %d); that ID was already used by connection tag %d of the same server", sid, tag, prev)
+			}
+			allIDs[sid] = tag
+			sawClose = true
+		case "otherserver":
+			// another gldap server starts, serves one connection and stops in the same process
+			mux2, _ := gldap.NewMux()
+			_ = mux2.DefaultRoute(func(w *gldap.ResponseWriter, r *gldap.Request) { _ = respondOK(w, r) })
+			srv2, err := lab.StartServer(mux2, lab.ServerOpts{})
+			if err != nil {
+				st.Inconclusive(err.Error())
+				return nil
+			}
+			for k := 0; k < stp.N; k++ {
+				if cl2, err := lab.Dial(srv2.Addr); err == nil {
+					_ = cl2.Send(simpleReq("bind", 3).Bytes())
+					_, _ = cl2.Next(10 * time.Second)
+					cl2.Close()
+				}
+			}
+			_ = srv2.Stop(15 * time.Second)
 		case "openmany":
 			// several connections opened at the same time by separate goroutines
 			n := stp.N
@@ -308,20 +375,22 @@ func c09Exec(c c09Case, st *lab.Stats) *lab.Fail {
 func TestC09(t *testing.T) {
 	lab.Prop[c09Case]{
 		ID: "C09", Part: "ids",
-		Rule: "rapid action sequences (up to 60 steps) over ONE long-lived server: open / open several at once / request (any operation) / long session of 20..300 pipelined requests / StartTLS upgrade of an open connection / concurrent burst on all open connections / close (FIN, RST, Unbind; waits for OnClose), up to 64 connections open at once; model = tag -> ConnectionID map: every request of a connection reports the same positive ID, IDs are pairwise different over the server's whole life (also after closes), OnClose delivers exactly the closed connection's ID, once; non-trivial = the sequence contains a close followed by an open while another connection is still open; distinct by hash",
+		Rule: "rapid action sequences (up to 60 steps) over ONE long-lived server: open / open several at once / request (any operation) / long session of 20..300 pipelined requests / StartTLS upgrade of an open connection / concurrent burst on all open connections / close (FIN, RST, Unbind; waits for OnClose) / a silent connection that connects and closes without a request (FIN, RST, half a frame + FIN; its ID is the one OnClose reports) / a second gldap server that starts, serves 0..3 connections and stops in the same process, up to 64 connections open at once; model = tag -> ConnectionID map: every request of a connection reports the same positive ID, IDs are pairwise different over the server's whole life (also after closes), OnClose delivers exactly the closed connection's ID, once; non-trivial = the sequence contains a close followed by an open while another connection is still open; distinct by hash",
 		Gen: func(t *rapid.T) c09Case {
 			var c c09Case
 			n := rapid.IntRange(2, 60).Draw(t, "nsteps")
 			for i := 0; i < n; i++ {
 				s := c09Step{
-					Kind: rapid.SampledFrom([]string{"open", "open", "open", "openmany", "request", "request", "burst", "close", "close", "manyrequests", "starttls"}).Draw(t, "kind"),
+					Kind: rapid.SampledFrom([]string{"open", "open", "open", "openmany", "request", "request", "burst", "close", "close", "manyrequests", "starttls", "silent", "silent", "otherserver"}).Draw(t, "kind"),
 					Slot: rapid.IntRange(0, 63).Draw(t, "slot"),
 				}
 				switch s.Kind {
 				case "request":
 					s.Op = rapid.SampledFrom([]string{"bind", "search", "modify", "add", "delete", "extended"}).Draw(t, "op")
-				case "close":
+				case "close", "silent":
 					s.How = rapid.SampledFrom([]string{"fin", "unbind", "rst"}).Draw(t, "how")
+				case "otherserver":
+					s.N = rapid.IntRange(0, 3).Draw(t, "n2")
 				case "openmany":
 					s.N = rapid.IntRange(2, 8).Draw(t, "n")
 				case "manyrequests":
